@@ -108,11 +108,20 @@ def zero_test_edge(cn, lid):
 
 def check_divisions(rep, fb, rule):
     """every integer / and % in PromelaDataModel::evaluateExpr is dominated by a zero test of its divisor that leaves the arm"""
-    ev = fb.fn('uscxml::PromelaDataModel::evaluateExpr', params=['void *'])
-    g = cfgm.CFG(ev)
-    divs = [n for n in ev.walk() if n['k'] == 'BinaryOperator' and n.get('op') in ('/', '%') and 'int' in n.get('t', '')]
-    rep.minimum(rule, len(divs), 2, 'integer / and % in evaluateExpr')
-    for d in divs:
+    ev0 = fb.fn('uscxml::PromelaDataModel::evaluateExpr', params=['void *'])
+    # the evaluator and the file-local helpers it calls (an arm may hand its evaluated operands to a checked helper)
+    fns = [ev0] + [fb.funcs[n['callee']['m']] for n in ev0.walk() if n['k'] == 'CallExpr' and n.get('callee', {}).get('m') in fb.funcs and
+                   fb.funcs[n['callee']['m']].file == ev0.file and fb.funcs[n['callee']['m']].rec is None and fb.funcs[n['callee']['m']].d.get('cfg')]
+    seen_f = set()
+    all_divs = []
+    for ev in fns:
+        if ev.m in seen_f:
+            continue
+        seen_f.add(ev.m)
+        all_divs += [(ev, n) for n in ev.walk() if n['k'] == 'BinaryOperator' and n.get('op') in ('/', '%') and 'int' in n.get('t', '')]
+    rep.minimum(rule, len(all_divs), 2, 'integer / and % in evaluateExpr and its helpers')
+    for ev, d in all_divs:
+        g = cfgm.CFG(ev)
         div = strip(d['c'][1])
         lid = div['ref'].get('lid') if div['k'] == 'DeclRefExpr' else None
         ok = False
@@ -504,6 +513,19 @@ def run(rep, tier):
                     if x['op'] in ('==', '!=') and any(y['k'] == 'MemberExpr' for k_ in x['c'] for y in sub(k_)):
                         continue
                     bins.append((x, ts))
+        if not bins:
+            # the arm hands its evaluated operands to a file-local helper: the operator application is looked up there
+            for st in a['eff']:
+                for c_ in sub(st):
+                    if c_['k'] == 'CallExpr' and c_.get('callee', {}).get('m') in fb.funcs and fb.funcs[c_['callee']['m']].file == ev.file and fb.funcs[c_['callee']['m']].rec is None:
+                        hf = fb.funcs[c_['callee']['m']]
+                        plids = [p_['lid'] for p_ in hf.d.get('params', [])]
+                        for x in hf.walk():
+                            if x['k'] == 'BinaryOperator' and x.get('op') in set(WANT.values()) and len(x.get('c', [])) == 2:
+                                os_ = [strip(k_) for k_ in x['c']]
+                                if all(o_ is not None and o_['k'] == 'DeclRefExpr' and o_.get('ref', {}).get('lid') in plids for o_ in os_) and \
+                                        [o_['ref']['lid'] for o_ in os_] == plids[:2]:
+                                    bins.append((x, [(o_.get('t') or '').replace('const ', '') for o_ in os_]))
         if not bins:
             raise AnalysisBroken('evaluateExpr: no operator application found in the arm of %s' % kind)
         nops += 1
